@@ -272,6 +272,20 @@ def oracle_toggle(case, res):
                                                              "an odd number of" if v else "an even number of")))
                 break
     else:
+        if monotone([x[0] for x in h], 0):
+            last_change, prev = None, False
+            for k, (t, lvl, acc) in enumerate(h):
+                if vals[k] is not prev:
+                    if not lvl:
+                        out.append(("dtoggle-change-without-press", "sample %d at tick %d: the value changes to %r while "
+                                    "the button reads released" % (k, t, vals[k])))
+                        break
+                    if last_change is not None and t - last_change < p:
+                        out.append(("dtoggle-spacing", "changes at ticks %d and %d are %d ticks apart, less than the "
+                                    "debounce period %d" % (last_change, t, t - last_change, p)))
+                        break
+                    last_change = t
+                prev = vals[k]
         # never while the button is held (any clock, any period): the sample after a sample that read the
         # button pressed does not change the value
         prev = False
@@ -286,8 +300,6 @@ def oracle_toggle(case, res):
         # earlier pressed sample at least p before that released sample (whose reading is >= 0) => the value flips
         prev = False
         for k, (t, lvl, acc) in enumerate(h):
-            if out:
-                break
             if lvl and (k == 0 or not h[k - 1][1]):
                 quiet_at = h[k - 1][0] if k else 0
                 if quiet_at >= 0 and all(quiet_at - u >= p for (u, l2, _) in h[:k] if l2) and vals[k] is prev:
@@ -297,20 +309,6 @@ def oracle_toggle(case, res):
                                               "construction", p, vals[k])))
                     break
             prev = vals[k]
-        if not out and monotone([x[0] for x in h], 0):
-            last_change, prev = None, False
-            for k, (t, lvl, acc) in enumerate(h):
-                if vals[k] is not prev:
-                    if not lvl:
-                        out.append(("dtoggle-change-without-press", "sample %d at tick %d: the value changes to %r while "
-                                    "the button reads released" % (k, t, vals[k])))
-                        break
-                    if last_change is not None and t - last_change < p:
-                        out.append(("dtoggle-spacing", "changes at ticks %d and %d are %d ticks apart, less than the "
-                                    "debounce period %d" % (last_change, t, t - last_change, p)))
-                        break
-                    last_change = t
-                prev = vals[k]
     return out
 
 
